@@ -88,9 +88,10 @@ Definition notify_lost_leadership (n : node) : node :=
 Definition reset_snapshot_files (n : node) : node :=
   n <| n_followers ::= map (fun p => (fst p, snd p <| f_snap := None |>)) |> <| n_partial := None |>.
 
-(* becomeFollower as in the source: the vote is cleared whenever it is called *)
+(* becomeFollower: the vote is cleared only when the term changes (fix: D2) *)
 Definition become_follower (now : N) (n : node) (leader : nid) (term : N) : node :=
-  let n1 := n <| n_role := Follower |> <| n_term := term |> <| n_leader := Some leader |> <| n_vote := None |> in
+  let vote := if term =? n_term n then n_vote n else None in
+  let n1 := n <| n_role := Follower |> <| n_term := term |> <| n_leader := Some leader |> <| n_vote := vote |> in
   let n2 := reset_snapshot_files (persist n1) in
   new_opmanager now (notify_lost_leadership n2).
 
